@@ -11,7 +11,12 @@ import (
 func TestGrammarInvariants(t *testing.T) {
 	for s := uint64(0); s < 3000; s++ {
 		r := rand.New(rand.NewPCG(s, s*7+1))
-		c := genCase(r, mustList[int(s)%len(mustList)])
+		var c *Case
+		if sp := specialCases("quick"); s%5 == 4 {
+			c = genSpecial(r, sp[int(s/5)%len(sp)])
+		} else {
+			c = genCase(r, mustList[int(s)%len(mustList)])
+		}
 		for _, p := range c.Pkgs {
 			seen := map[string]bool{}
 			for _, x := range p.Derives {
